@@ -52,9 +52,14 @@ def arff_variants(max_dims):
 
 
 # ----------------------------------------------------------------------------------------------- value classes
+# the characters str.splitlines() treats as line boundaries but a text file / readline() does not
+LINESEPS = ['\x0b', '\x0c', '\x1c', '\x1d', '\x1e', '\x85', '\u2028', '\u2029']
+
+
 def vclass(s):
     if s is None: return 'missing'
     if s == '?': return 'qmark'
+    if any(c in s for c in LINESEPS): return 'line-boundary character'
     if '\\' in s: return 'backslash'
     if '"' in s: return 'dquote'
     if "'" in s: return 'squote'
